@@ -668,6 +668,12 @@ def tags(case, impl, model):
     if out and "hyp" in out:
         t.append("hyp.rt=" + str(out["hyp"]["rt"]))
         t.append("hyp.dom=" + str(out["hyp"]["dom"]))
+        if "region" in out["hyp"]:
+            t.append("hyp.region=" + str(out["hyp"]["region"]))
+            if class_depth(case["cls"]) >= 2 and not case["camel"]:
+                t.append(f"nested-class-tree:region={out['hyp']['region']}")
+            if class_depth(case["cls"]) >= 3 and not case["camel"]:
+                t.append(f"depth>=3:region={out['hyp']['region']}")
     return t
 
 
